@@ -266,6 +266,34 @@ func c19Rate(c *Ctx) {
 					}
 				}
 			}
+			if !zero && len(ret.Block().Preds) > 1 && len(ret.Results) == 1 {
+				// a return shared by `err != nil || f.Freq == 0`: decide edge by edge
+				all := true
+				for _, p := range ret.Block().Preds {
+					fs := factsAt(p)
+					if ifi, isIf := p.Instrs[len(p.Instrs)-1].(*ssa.If); isIf && p.Succs[0] != p.Succs[1] {
+						fs = append(fs, fact{Cond: ifi.Cond, Val: p.Succs[0] == ret.Block(), If: ifi})
+					}
+					okP := false
+					for _, f := range fs {
+						bo, isBo := f.Cond.(*ssa.BinOp)
+						if !isBo || (bo.Op != token.EQL && bo.Op != token.NEQ) {
+							continue
+						}
+						eq := (bo.Op == token.EQL) == f.Val
+						if z, isZ := constInt(bo.Y); isZ && z == 0 && eq && strings.HasSuffix(describeVal(bo.X), ".Freq") {
+							okP = true
+						}
+						if isNilConst(bo.Y) && !eq && sameLoadedValue(bo.X, ret.Results[0]) {
+							okP = true // this edge returns a non-nil error: the value is rejected
+						}
+					}
+					if !okP {
+						all = false
+					}
+				}
+				zero = all
+			}
 			if !zero {
 				ok, why = false, "a non-zero frequency can be accepted without storing its time unit: the unit of an earlier -rate (or the default) leaks into this one"
 			}
@@ -383,6 +411,44 @@ func c19Rate(c *Ctx) {
 				if x.Op == token.EQL {
 					if s, ok := constString(x.Y); ok && s != "infinity" && s != "" && len(s) <= 3 {
 						units[s] = true
+					}
+					// the text compared with each element of a local literal table: `for _, u := range [...]string{...} { if s == u`
+					for _, side := range []ssa.Value{x.X, x.Y} {
+						var arr ssa.Value
+						switch e := side.(type) {
+						case *ssa.Index:
+							arr = e.X
+						case *ssa.UnOp:
+							if ia, isIA := e.X.(*ssa.IndexAddr); isIA && e.Op == token.MUL {
+								arr = ia.X
+							}
+						}
+						if arr == nil {
+							continue
+						}
+						if ld, isLd := isLoad(arr); isLd {
+							arr = ld.X
+						}
+						if sl, isSl := arr.(*ssa.Slice); isSl {
+							arr = sl.X
+						}
+						al, isAl := arr.(*ssa.Alloc)
+						if !isAl {
+							continue
+						}
+						for _, r := range refs(al) {
+							ia, isIA := r.(*ssa.IndexAddr)
+							if !isIA {
+								continue
+							}
+							for _, r2 := range refs(ia) {
+								if st, isSt := r2.(*ssa.Store); isSt {
+									if s, ok := constString(st.Val); ok && s != "" && len(s) <= 3 {
+										units[s] = true
+									}
+								}
+							}
+						}
 					}
 				}
 			}
